@@ -632,6 +632,7 @@ package redis
 
 //@ func (*compressFilter).Do
 //@   prop C11 C13 C02 C01
+//@   ensures @replies-of-every-command-outside-the-skip-table-pass-the-decompression-hook result == "Continue" && f.cfg != nil && redisopt(f.cfg.Config) != nil && compressionof(redisopt(f.cfg.Config)) != nil && !has(wkSkipCheckCmdsInDecps, cmd) ==> len(req.hooks) == old(len(req.hooks)) + 1
 //@   callpre SetResponse @locally-built-replies-are-one-line oneline(arg1)
 //@   consumes req if result == "Stop"
 //@   modifies all
@@ -970,7 +971,8 @@ package redis
 //@ func (*upstream).refreshSlots
 //@   prop C07
 //@   requires u != nil
-//@   modifies all, trigcount
+//@   modifies all, trigcount, refreshn
+//@   ghostdef refreshn == old(refreshn) + 1
 //@   callpre triggerSlotsRefresh @only-a-failed-refresh-is-retried err != nil
 //@   ensures @at-most-one-retry trigcount == old(trigcount) || trigcount == old(trigcount) + 1
 
@@ -1029,7 +1031,10 @@ package redis
 //@   ensures @a-new-client-has-its-done-channel result1 == nil ==> result0 != nil && result0.done != nil
 
 //@ func (*upstream).createClient
-//@   prop C07
+//@   prop C07 C09
+//@   flag track-locks
+//@   callpre Dial @the-connection-is-made-while-the-client-table-is-locked held(u.clientsMu)
+//@   callpre addClientLocked @the-client-is-registered-while-the-table-is-still-locked held(u.clientsMu)
 //@   requires clientsok(u)
 //@   assume u.cfg != nil && u.cfg.ConnectTimeout != nil && u.hkc != nil
 //@   modifies all
@@ -1053,7 +1058,8 @@ package redis
 //@ func (*upstream).loopRefreshSlots
 //@   prop C07
 //@   requires u != nil
-//@   modifies all, trigcount
+//@   modifies all, trigcount, refreshn, received(u.slotsRefreshCh), sent(u.slotsRefreshCh)
+//@   loop 0 invariant @no-trigger-is-taken-without-a-refresh-following-it recvcount(u.slotsRefreshCh) - old(recvcount(u.slotsRefreshCh)) <= refreshn - old(refreshn)
 //@   callpre refreshSlots @the-first-refresh-is-triggered-at-once-and-every-wakeup-refreshes trigcount >= old(trigcount) + 1
 //@   loop 0 invariant trigcount >= old(trigcount) + 1
 
